@@ -1,5 +1,6 @@
 import DirectVerif.Gen.C08
 import DirectVerif.Model.Pipeline
+import DirectVerif.Lemmas.C08NF
 /-!
 # Bridge C08 — the stage table translated from `/repo` equals the hand-written builder
 
@@ -23,18 +24,15 @@ theorem body_seed_eq (u : Bool) : Gen.C08.bodySeed u = seedOf u [.filename] := b
 theorem split_seed_eq (u : Bool) : Gen.C08.splitSeed u = seedOf u [.filename, .sliceNo] := by cases u <;> decide
 theorem crop_seed_eq : Gen.C08.crop_seed_fields = [.filename] := by decide
 
-/-- `rfl` when the source has the modelled statement structure; otherwise both sides are normalised as
-lists first (so that e.g. splitting one `mri_transforms += [a, b]` into two statements is not an alarm) -/
-theorem build_supervised_eq (c : Config) : Gen.C08.build_supervised c = buildSupervised c := by
-  first
-  | rfl
-  | simp only [Gen.C08.build_supervised, buildSupervised, Gen.C08.zero_padding_threshold, thrCurrent,
-      Gen.C08.maskSeed, Gen.C08.bodySeed, List.append_assoc, List.cons_append, List.nil_append]
+/-- the generated table is, literally, the list normal form of the modelled builder (`rfl`): the normal
+form does not depend on how the source groups unconditional `mri_transforms += [...]` statements -/
+theorem build_supervised_nf (c : Config) : Gen.C08.build_supervised c = buildSupervisedNF c := rfl
+theorem build_gen_nf (c : Config) : Gen.C08.build c = buildNF c := rfl
 
-theorem build_eq (c : Config) : Gen.C08.build c = build c := by
-  first
-  | rfl
-  | simp only [Gen.C08.build, build, build_supervised_eq, Gen.C08.splitSeed, List.append_assoc, List.cons_append,
-      List.nil_append]
+theorem build_supervised_eq (c : Config) : Gen.C08.build_supervised c = buildSupervised c :=
+  (build_supervised_nf c).trans (buildSupervised_nf c).symm
+
+theorem build_eq (c : Config) : Gen.C08.build c = build c :=
+  (build_gen_nf c).trans (build_nf c).symm
 
 end DirectVerif.Bridge.C08
